@@ -200,8 +200,9 @@ func (r *runZeroConsumersClose) Next(t time.Time) time.Time {
 
 func (r *runZeroConsumersClose) run() {
 	if r.s.ConsumerCount() <= 0 {
-		hlsable := r.s.Hlsable()
-		if hlsable == nil || time.Now().Sub(hlsable.LastAccessTime()) >= r.d {
+		// test the pointer: Hlsable() wraps a nil *Playlist in a non-nil interface
+		pl := r.s.hlsPlaylist
+		if pl == nil || time.Now().Sub(pl.LastAccessTime()) >= r.d {
 			r.closed = true
 			r.s.close(r.closedStats)
 		}
